@@ -1030,8 +1030,10 @@ pub fn seal_ambiguity(m: &RefState) -> BTreeSet<String> {
                     .map(|t| t.outputs[0].value.0)
                     .fold(0u128, |a, b| a.saturating_add(b));
                 let liqs = m.pools.get(&canon).map(|p| p.liqs).unwrap_or(0);
-                if total == 0 || total > liqs {
-                    s.insert("unhonourable-withdrawal".to_string());
+                if total == 0 || total >= liqs {
+                    // (withdrawing exactly everything is honoured for ordinary pools and refused for built-in ones; either way the
+                    //  settlement is compared by invariants only)
+                    s.insert("unhonourable-or-total-withdrawal".to_string());
                 }
             }
         }
